@@ -212,8 +212,8 @@ fn c12_splitter_gecko_accounting() {
 
 // @verif property=C12,C07:thorough tier=quick mem=16 timeout=2400
 // @encodes peppi::io::slippi::de::parse_start (parse_payloads, parse_game_start, game_start) over a stream that answers every read in two pieces
-// @symbolic 96 random seed of the Game Start block (three calls)
-// @bound port-free 0.1 stream: 3-entry payload table + 320-byte Game Start; every read of >= 2 bytes answered in two pieces, split after 1 byte / in the middle / before the last byte (three concrete schedules)
+// @symbolic 32 random seed of the Game Start block
+// @bound port-free 0.1 stream: 3-entry payload table + 320-byte Game Start; every read of >= 2 bytes answered in two pieces, split in the middle (concrete schedule; the other two schedules: c12_frag_parse_start_edges)
 // @assume the stream is concrete except the random seed
 // @stub alloc::fmt::format = returns an empty String
 // @stub std::hash::RandomState::new = fixed keys
@@ -224,6 +224,22 @@ fn c12_splitter_gecko_accounting() {
 #[kani::stub(std::hash::RandomState::new, random_state_stub)]
 fn c12_frag_parse_start() {
 	frag_parse_start(Split::Half);
+	kani::cover!(true, "reached");
+}
+
+// @verif property=C12,C07 tier=thorough mem=16 timeout=3600
+// @encodes peppi::io::slippi::de::parse_start over a stream that answers every read in two pieces (one byte first; all but the last byte first)
+// @symbolic 64 random seed of the Game Start block (two calls)
+// @bound port-free 0.1 stream: 3-entry payload table + 320-byte Game Start; two concrete split schedules
+// @assume the stream is concrete except the random seed
+// @stub alloc::fmt::format = returns an empty String
+// @stub std::hash::RandomState::new = fixed keys
+// @cbmc --max-field-sensitivity-array-size 1024
+#[kani::proof]
+#[kani::unwind(10)]
+#[kani::stub(alloc::fmt::format, format_stub)]
+#[kani::stub(std::hash::RandomState::new, random_state_stub)]
+fn c12_frag_parse_start_edges() {
 	frag_parse_start(Split::First1);
 	frag_parse_start(Split::AllButOne);
 	kani::cover!(true, "reached");
